@@ -222,3 +222,28 @@ def challenge_py(lvl, variant, jcom_hex, jpk_hex, msg_hex):
         for _ in range(CONST[lvl]["hit"]):
             dig = hashlib.shake_256(dig).digest(n)
     return int.from_bytes(dig, "little")
+
+
+def replay(ctx, rp, san):
+    """./check CNN --replay file: re-run the recorded probe on the current tree and say whether it still fails"""
+    r = rp.get("replay", {})
+    if not all(k in r for k in ("level", "variant", "pk", "sig")):
+        print(json_dumps(rp))
+        return 0
+    lvl, variant = int(r["level"]), r["variant"]
+    msg = r.get("msg", "-")
+    if "…" in msg:
+        print("message was abbreviated in the replay file; re-run the check with the same VERIF_SEED instead"); return 0
+    exe = compile_driver(ctx, lvl, variant, san)
+    st, out, err = run_lines(exe, [verify_line(variant, r["pk"], r["sig"], msg)], 120)
+    kv = parse_kv(out[0]) if out else {}
+    print("replay %s: result=%s verdict=%s taps=%s" % (rp.get("key"), st, kv.get("v"), kv.get("taps")))
+    if st != "ok":
+        print(err[-1500:]); return 1
+    bad_accept = kv.get("v") == "1" and r.get("probe_class") in ("forgery", "other-pk", "other-msg")
+    return 1 if bad_accept else 0
+
+
+def json_dumps(x):
+    import json
+    return json.dumps(x, indent=1)
